@@ -207,6 +207,10 @@ extern int mpt_graph_set(MPT_STRUCT(graph) *gr, const char *name, MPT_INTERFACE(
 		if (len > 0) {
 			return 0;
 		}
+		/* number outside value range is no letter code */
+		if (len != MPT_ERROR(BadType)) {
+			return len;
+		}
 		if ((len = src->_vptr->convert(src, 's', &v)) < 0) {
 			return len;
 		}
@@ -239,6 +243,10 @@ extern int mpt_graph_set(MPT_STRUCT(graph) *gr, const char *name, MPT_INTERFACE(
 		}
 		if (len > 0) {
 			return 0;
+		}
+		/* number outside value range is no letter code */
+		if (len != MPT_ERROR(BadType)) {
+			return len;
 		}
 		if ((len = src->_vptr->convert(src, 's', &v)) < 0) {
 			return len;
